@@ -18,8 +18,16 @@ func (reader) Read(p []byte) (int, error) {
 	if w == nil {
 		return crand.Read(p)
 	}
+	// one tape draw plus a per-world counter seed a local generator, so that even an
+	// all-zero (minimised) tape yields distinct values on successive calls
+	x := uint64(w.Tape.Intn(1<<30, "crand"))<<20 + w.NextCounter("crand")*0x9E3779B97F4A7C15
 	for i := range p {
-		p[i] = byte(w.Tape.Intn(256, "crand"))
+		x += 0x9E3779B97F4A7C15
+		z := x
+		z = (z ^ (z >> 30)) * 0xBF58476D1CE4E5B9
+		z = (z ^ (z >> 27)) * 0x94D049BB133111EB
+		z ^= z >> 31
+		p[i] = byte(z >> 24)
 	}
 	return len(p), nil
 }
